@@ -507,7 +507,8 @@ Definition prepare_url (prefix bpath formatted : str) : str :=
     let resolved := resolve_dots segments [] in
     let resolved' := if is_dot (last segments []) || is_dotdot (last segments []) then resolved ++ [[]] else resolved in
     let p := join [47] resolved' in
-    prefix ++ (if is_nil p then [47] else p).
+    (* urlunparse puts a slash between the netloc and a path that lost its leading empty segment to a dot-dot segment *)
+    prefix ++ (match p with [] => [47] | 47 :: _ => p | _ => 47 :: p end).
 
 (* ------------------------------------------------------------------------------------------------ *)
 (* 8. prepare_headers and the Content-Type rule of RequestsTransport.serialize_case                   *)
